@@ -96,8 +96,8 @@ PROPS = {
         "run_files": ["Run/CaseConn.v"],
         "imports": ["Lib.Bytes", "Codec.Desc", "Conn.Types", "Conn.Prog", "Conn.Sem1", "Run.CaseConn"],
         "case_type": "conn_case",
-        "checkers": {"BASE": "check_c01", "C01": "check_c01"},
-        "harness": [{"bin": "conn", "env": {"VERIF_FAMILIES": "BASE,C01"}}],
+        "checkers": {"BASE": "check_c01", "C01": "check_c01", "C02": "check_c01"},
+        "harness": [{"bin": "conn", "env": {"VERIF_FAMILIES": "BASE,C01,C02"}}],
         "shard": 40,
         "quick_scale": 1, "thorough_scale": 8, "search_factor": 4,
         "ties": ["conn binary: real Connection::listen on a scripted transport/client/adapters in a paused runtime vs Conn.Sem1.run1 (sends, calls, outcome, virtual ms)",
@@ -112,11 +112,11 @@ PROPS = {
     },
     "C02": {
         "props_file": "Props/C02.v",
-        "run_files": ["Run/CaseConn.v"],
+        "run_files": ["Run/CaseConn.v", "Run/CaseCookie.v"],
         "imports": ["Lib.Bytes", "Codec.Desc", "Conn.Types", "Conn.Prog", "Conn.Sem1", "Run.CaseConn"],
         "case_type": "conn_case",
-        "checkers": {"BASE": "check_c02", "C02": "check_c02"},
-        "harness": [{"bin": "conn", "env": {"VERIF_FAMILIES": "BASE,C02"}}],
+        "checkers": {"BASE": "check_c02", "C02": "check_c02", "C01": "check_c02"},
+        "harness": [{"bin": "conn", "env": {"VERIF_FAMILIES": "BASE,C02,C01"}}, {"bin": "cookie", "case_type": "ckcase", "imports": ["Lib.Bytes", "Run.CaseCookie"], "checkers": {"SG": "check_cookie", "CK": "check_cookie"}, "shard": 20}],
         "shard": 40,
         "quick_scale": 1, "thorough_scale": 8, "search_factor": 4,
         "ties": ["conn binary: real Connection::listen on a scripted transport/client/adapters in a paused runtime vs Conn.Sem1.run1 (sends, calls, outcome, virtual ms)",
@@ -186,11 +186,11 @@ PROPS = {
     },
     "C10": {
         "props_file": "Props/C10.v",
-        "run_files": ["Run/CaseConn.v"],
+        "run_files": ["Run/CaseConn.v", "Run/CaseCookie.v"],
         "imports": ["Lib.Bytes", "Codec.Desc", "Conn.Types", "Conn.Prog", "Conn.Sem1", "Run.CaseConn"],
         "case_type": "conn_case",
         "checkers": {"BASE": "check_c03", "C10": "check_c03"},
-        "harness": [{"bin": "conn", "env": {"VERIF_FAMILIES": "BASE,C10"}}],
+        "harness": [{"bin": "conn", "env": {"VERIF_FAMILIES": "BASE,C10"}}, {"bin": "cookie", "case_type": "ckcase", "imports": ["Lib.Bytes", "Run.CaseCookie"], "checkers": {"SG": "check_cookie", "CK": "check_cookie"}, "shard": 20}],
         "shard": 40,
         "quick_scale": 1, "thorough_scale": 8, "search_factor": 4,
         "ties": ["conn binary: real Connection::listen on a scripted transport/client/adapters in a paused runtime vs Conn.Sem1.run1 (sends, calls, outcome, virtual ms)",
@@ -228,6 +228,25 @@ PROPS = {
                                      "Spec/Sha1.v, Spec/SignedHex.v for the expected serverId value (C11)"],
         "assumptions": ["the session server parses the query string as application/x-www-form-urlencoded"],
     },
+    "C07": {
+        "props_file": "Props/C07.v",
+        "run_files": ["Run/CaseConn.v"],
+        "imports": ["Lib.Bytes", "Codec.Desc", "Conn.Types", "Conn.Prog", "Conn.Sem1", "Run.CaseConn"],
+        "case_type": "conn_case",
+        "checkers": {"BASE": "check_c07", "C07": "check_c07", "C03": "check_c07"},
+        "harness": [{"bin": "conn", "env": {"VERIF_FAMILIES": "BASE,C07,C03"}}],
+        "shard": 40,
+        "quick_scale": 1, "thorough_scale": 8, "search_factor": 4,
+        "ties": ["conn binary: real Connection::listen on a scripted transport/client/adapters in a paused runtime vs Conn.Sem1.run1 (sends, calls, outcome, virtual ms)",
+                 "Gen/PacketsGen.v descriptors decode the client's frames and encode the model's packets"],
+        "allowed_axioms": [],
+        "rule": "conn binary family C07: per-adapter latencies from 1 ms to 5 keep-alive periods x echo policy {prompt, delayed up to just under a period, never, wrong id, duplicate, stop after n} x Client Information arrival {immediate, after 1/2/3 periods} x slow authentication (missed-tick realignment), under virtual time with exact millisecond comparison; non-trivial = distinct case in which at least one Keep Alive was sent",
+        "trusted_base": COMMON_TB + ["Conn/Prog.v: hand transcription of Connection::listen into the program datatype (tied by the conn correspondence: every case compares the model's sends, adapter calls, outcome and virtual times with the real Connection::listen)",
+                                     "Conn/Sem1.v: frame-level semantics incl. a hand model of tokio 1.49 Interval (MissedTickBehavior::Skip), validated by every timed conn case",
+                                     "RSA PKCS#1 v1.5, serde_json, uuid generation, SystemTime: oracles recorded per case / universally quantified in the theorems",
+                                     "monitor on the implementation's trace: observable events are the implementation's, unobservable ones (frame consumption, fresh values) are aligned from the model's run"],
+        "assumptions": ["frames delivered atomically (segmentation is C08's subject)", "event times distinct from tick instants and adapter completions"],
+    },
 }
 
 
@@ -237,6 +256,8 @@ def nontrivial(pid, fam, term):
         return "[]" not in term.split("(hx")[0] or fam == "DEC"
     if pid == "C13":
         return fam != "RND" or "false" in term
+    if pid == "C07":
+        return "cc_kaids := []" not in term
     if pid == "C05":
         if fam == "RD": return term.count("RData") >= 2
         return " true " in term and ("WPending" in term or "WReady 1" in term)
